@@ -60,6 +60,11 @@ let handle (line : string) : string =
       (match root_of tbl root with
        | None -> "NOROOT"
        | Some r -> string_of_cl (run_objev tbl r (bytes_of_hex hex)))
+  | ["evobj"; tb; root; hex] ->
+      let tbl = tables_of tb in
+      (match root_of tbl root with
+       | None -> "NOROOT"
+       | Some r -> string_of_cl (run_evobj tbl r (bytes_of_hex hex)))
   | ["attr"; tb; name; v] ->
       (match find_prim (prims_of tb) name with
        | None -> "NOPRIM"
